@@ -210,7 +210,7 @@ func ruleAliasAppend(c *Ctx) []Obligation {
 						if hazard == "" {
 							continue
 						}
-						con := fmt.Sprintf("%s: %s on %s.%s of a struct copy", c.FnName(cp.fn), hazard, cp.named.Obj().Name(), f.Name())
+						con := fmt.Sprintf("%s: %s on %s.%s of a struct copy", c.FnName(cp.fn), hazard, objName(cp.named.Obj()), f.Name())
 						// re-allocated before? a store of a fresh slice to copy.f dominating this use
 						realloc := false
 						for _, s3 := range storesToField(cp.fn, f) {
@@ -255,7 +255,7 @@ func ruleAliasAppend(c *Ctx) []Obligation {
 				return
 			}
 			con := fmt.Sprintf("%s: append onto a re-slice of %s (storage reuse)", c.FnName(fn), fieldKey(owner, f))
-			obs = append(obs, bad(R, con, c.InstrPos(in), "values of type "+owner.Obj().Name()+" are copied by value elsewhere, so this field's backing array may be shared with other copies; writing into it in place changes them too"))
+			obs = append(obs, bad(R, con, c.InstrPos(in), "values of type "+objName(owner.Obj())+" are copied by value elsewhere, so this field's backing array may be shared with other copies; writing into it in place changes them too"))
 		})
 	}
 	obs = append(obs, ok(R, "struct copies enumerated", "-", fmt.Sprintf("%d whole-struct copies in %d functions", len(copies), len(c.Funcs))))
